@@ -152,29 +152,8 @@ fn module(implied: bool, flip: bool, body: &str) -> String {
 
 fn run_batch(base: usize, cases: &[Value], force_flip: Option<bool>) -> Vec<Value> {
     let texts: Vec<String> = cases.iter().enumerate().map(|(i, c)| render(base + i, c)).collect();
-    let body = |imp: bool| -> String {
-        cases.iter().zip(&texts).filter(|(c, _)| c["implied"].as_bool().unwrap() == imp).map(|(_, t)| t.clone()).collect::<Vec<_>>().join("\n")
-    };
-    let mut srcs = vec![];
-    let flip = force_flip.unwrap_or((base / cases.len().max(1)) % 2 == 1);
-    for imp in [false, true] {
-        let b = body(imp);
-        if !b.is_empty() {
-            srcs.push(module(imp, flip, &b));
-        }
-    }
-    let (o, ir) = run::compile_rasn(&srcs, run::default_config());
-    if o.clean() {
-        let krate = rsproj::project(&o.generated);
-        return cases.iter().enumerate().map(|(i, c)| observe(base + i, c, &texts[i], &o, &krate, &ir)).collect();
-    }
-    if cases.len() > 4 {
-        let mid = cases.len() / 2;
-        let mut a = run_batch(base, &cases[..mid], force_flip);
-        a.extend(run_batch(base + mid, &cases[mid..], force_flip));
-        return a;
-    }
-    cases
+    // 1. every case on its own: which layouts does the compiler accept at all?
+    let mut events: Vec<Value> = cases
         .iter()
         .enumerate()
         .map(|(i, c)| {
@@ -182,7 +161,30 @@ fn run_batch(base: usize, cases: &[Value], force_flip: Option<bool>) -> Vec<Valu
             let krate = rsproj::project(&o.generated);
             observe(base + i, c, &texts[i], &o, &krate, &ir)
         })
-        .collect()
+        .collect();
+    // 2. the accepted ones together, in two neighbouring modules (EXTENSIBILITY IMPLIED / not); the
+    //    alphabetical order of the two module names alternates from batch to batch, so that each
+    //    module is generated both before and after its neighbour
+    let good: Vec<usize> = (0..cases.len()).filter(|i| events[*i]["status"] == "ok").collect();
+    let flip = force_flip.unwrap_or((base / cases.len().max(1)) % 2 == 1);
+    let mut srcs = vec![];
+    for imp in [false, true] {
+        let b: Vec<String> = good.iter().filter(|i| cases[**i]["implied"].as_bool().unwrap() == imp).map(|i| texts[*i].clone()).collect();
+        if !b.is_empty() {
+            srcs.push(module(imp, flip, &b.join("\n")));
+        }
+    }
+    if srcs.len() == 2 {
+        let (o, ir) = run::compile_rasn(&srcs, run::default_config());
+        if o.clean() {
+            let krate = rsproj::project(&o.generated);
+            for i in good {
+                events[i] = observe(base + i, &cases[i], &texts[i], &o, &krate, &ir);
+                events[i]["neighbour"] = json!(true);
+            }
+        }
+    }
+    events
 }
 
 /// vharness c05 --cases <ndjson> --trace <ndjson>
